@@ -18,7 +18,7 @@ _index_to_edge_partition = getattr(_uni, "_index_to_edge_partition", None)
 PID = "C16"
 RULE = (
     "case = (generator, parameter tuple from a bounded grid: n <= 8, sizes/orders <= 4, probabilities from {0, 0.05, 0.3, "
-    "0.7, 1}, degree/size sequences with equal and unequal sums, block sizes incl. 0, gnp graphs for flag complexes; drawn "
+    "0.7, 1}, list / numpy / scalar argument forms, degree/size sequences with equal and unequal sums, block sizes incl. 0, graphs for flag complexes from gnp and from drawn edge lists in drawn order; drawn "
     "seed). Oracle per generator: exact node set; every edge a set of existing nodes of an allowed size (exactly m for "
     "uniform models); no repeated edges where forbidden; p=0 -> no edge of that order, p=1 -> all C(n, d+1) without error; "
     "complete-hypergraph counts; configuration-type models never exceed prescribed degrees; Chung-Lu/DCSBM edges within "
